@@ -204,6 +204,8 @@ CHECKS = {
        "and its acknowledgements of the other side's messages: the invariant twice, a simulation of the two-way system by the two one-way "
        "systems with frame lemmas (a receiver's step leaves its sender role alone and vice versa): every schedule succeeds and after the "
        "drain each application has been notified of exactly what the other side published (C01_pair_two_way_exactly_once); "
+       "the same for v5.0 with Receive Maximum and Maximum Packet Size negotiated in both directions, where after the drain both accounts "
+       "are back to full and neither side holds an outstanding entry (C01_pair_two_way_v5_exactly_once, Conn/PairBi5.v); "
        "(1v5) v5.0 WITH SEVERAL EXCHANGES IN FLIGHT: the invariant adds the Receive Maximum accounts (sender's count = exchanges in "
        "flight <= the peer's limit; receiver's outstanding set = its handled set), the quota is never exceeded, and after the drain the "
        "vacancy is the full maximum (C01_pair_concurrent_exactly_once_v5); (1b) THE SAME ACROSS TRANSPORT LOSS - persistent sessions, one more action 'the transport "
